@@ -249,6 +249,8 @@ def run(cr: CheckRun) -> None:
     ritems += in_handler_event_scripts()
     campaign(cr, ritems, "random-scripts")
     cr.mark("random")
+    from checks import ext_loopdet
+    ext_loopdet.run(cr)
     cr.cov["distinct_nontrivial"] = len({json.dumps(b, sort_keys=True) for b in items + sitems + ritems})
     cr.cov["rule"] = "distinct (instruction stream, event schedule) scripts executed step by step on both machines"
     cr.cov["trusted_base"] = ["vh harness (rt.rs)", "harness/py/machine_harness.py", "TLC"]
